@@ -149,7 +149,9 @@ func runSnapRace(c SnapRace) (fail *kit.Failure, ev map[string]int, hist []strin
 		return nil
 	})
 	if c.Hist != 0 {
+		mu.Lock()
 		parkedOnce = true // history-view variant: the background snapshot of the last request is not parked
+		mu.Unlock()
 	}
 	if c.Force {
 		if err := clA.Sync(ctx); err != nil {
